@@ -69,6 +69,7 @@ func main() {
 	genProcess(repo, out, ps)
 	genStore(repo, out, ps)
 	genRuntimeFacts(repo, out, ps)
+	genBuckets(repo, out, ps)
 }
 
 // ---------------------------------------------------------------------------- lock facts
